@@ -26,13 +26,29 @@ events) - so the part of the reader that handles one tempo stays separately visi
   tempo_point_time         a tempo change is not at the integrated ms position
   header_text / header_bpm / header_level / header_counts / header_other   header fields not decoded as laid out
 
+Input dimensions of the generators (besides the package contents): difficulties with 0 packages / tempo packages only /
+packages without any event / hits only / long notes only (any of the three, also in the middle); slot counts from a pool
+and random 1..400, packages with 0 slots; first note measure up to 999; file order measure-major, tempo packages
+anywhere, channel-major; a second package for an already used (measure, channel) (tempo channel; hit-only columns);
+a long note whose tail sits at the position of its head (two packages of one measure); header counters (event / note /
+measure count) as derived or as arbitrary numbers (real files count differently); header text fields with non-ASCII
+bytes or bytes after the NUL (only 'reads without raising' and the other clauses apply to them); cover and bitmap blobs
+after the packages; entry points read(bytes), read on an instance, read_file(str), read_file(pathlib.Path).
+
+Clauses of `ojn_reads_do_not_interfere` (two files read one after the other in one process):
+  earlier_result_changed_by_later_read    the map set returned for the first file differs after the second read
+  same_bytes_read_differently_again       reading the first file once more gives a different map set
+  (the second file's result is compared with the interpreter under the clause ids above)
+
 Not asserted (the property is silent): volume / pan nibbles, the order of rows inside the lists, whether the header
 tempo is repeated as a tempo point when an event sits at position 0, text fields that are not plain NUL-padded ASCII.
 """
 from __future__ import annotations
 
 import itertools
+import os
 import struct
+import tempfile
 import traceback
 import warnings
 from bisect import bisect_left
@@ -196,26 +212,37 @@ def build_ojn(spec):
     note_offset = [300, 300 + len(bodies[0]), 300 + len(bodies[0]) + len(bodies[1])]
     cover_offset = note_offset[2] + len(bodies[2])
     cover = bytes.fromhex(hd.get("cover", ""))
+    bmp = bytes.fromhex(hd.get("bmp", ""))  # thumbnail blob after the cover, as in the bundled files
+    # header counters: derived from the packages unless the spec states them (real files count differently)
+    ev_count, note_count, measure_count = hd.get("event_count", ev_count), hd.get("note_count", note_count), hd.get("measure_count", measure_count)
+
+    def text(key):  # "<key>_hex" = raw bytes of the field (non-ASCII / bytes after the NUL)
+        return bytes.fromhex(hd[key + "_hex"]) if key + "_hex" in hd else hd[key].encode("ascii")
+
     head = struct.pack(
         HEADER_FMT, hd["songid"], hd.get("signature", "ojn").encode("ascii"), hd["encode_version"], hd["genre"], hd["bpm"],
         *hd["level"], *ev_count, *note_count, *measure_count, *pkg_count, hd["old_encode_version"], hd["old_songid"],
-        bytes.fromhex(hd["old_genre"]), hd["bmp_size"], hd["old_file_version"], hd["title"].encode("ascii"),
-        hd["artist"].encode("ascii"), hd["noter"].encode("ascii"), hd["ojm_file"].encode("ascii"), len(cover),
+        bytes.fromhex(hd["old_genre"]), hd["bmp_size"], hd["old_file_version"], text("title"),
+        text("artist"), text("noter"), text("ojm_file"), len(cover),
         *hd["time"], *note_offset, cover_offset,
     )
     assert len(head) == 300
-    return head + b"".join(bodies) + cover
+    return head + b"".join(bodies) + cover + bmp
 
 
 def _selfcheck(spec, b):
     """generator <-> interpreter framing agreement (a disagreement is a checker error, not a reamber failure)."""
     h, diffs, end = parse_ojn(b)
-    assert h["note_offset"][0] == 300 and h["cover_offset"] == end and len(b) == end + h["cover_size"], "offsets"
+    assert h["note_offset"][0] == 300 and h["cover_offset"] == end and len(b) == end + h["cover_size"] + len(spec["header"].get("bmp", "")) // 2, "offsets"
     for d in range(3):
         assert len(diffs[d]) == len(spec["diffs"][d])
         for (m, ch, n, raw), (m2, ch2, n2, evs) in zip(diffs[d], spec["diffs"][d]):
             assert (m, ch, n) == (m2, ch2, n2) and sum(raw[4 * i:4 * i + 4] != b"\0\0\0\0" for i in range(n)) == len(evs)
-    assert _text(h["title"]) == spec["header"]["title"] and h["bpm"] == spec["header"]["bpm"]
+    assert h["bpm"] == spec["header"]["bpm"]
+    if "title_hex" in spec["header"]:
+        assert h["title"].rstrip(b"\0") == bytes.fromhex(spec["header"]["title_hex"]).rstrip(b"\0")
+    else:
+        assert _text(h["title"]) == spec["header"]["title"]
 
 
 PLAIN_HEADER = dict(
@@ -245,6 +272,13 @@ def _pos_pkgs(channel, events):
 # ----------------------------------------------------------------------------------------------- random generator
 
 BPM_POOL = [60.0, 90.0, 120.0, 130.0, 150.0, 177.5, 200.0, 240.0, 333.25, 0.75, 1000.0]
+SLOT_POOL = [5, 6, 7, 12, 24, 32, 48, 64, 96, 384]  # besides SLOT_COUNTS
+DIFF_KINDS = ["empty", "tempo_only", "blank_packages", "hits_only", "holds_only", "full"]
+VIAS = ["read", "read", "read", "read", "read_file_str", "read_file_path", "instance_read"]
+RAW_TEXTS = [  # header text fields that are not plain NUL-padded ASCII (the text clauses are silent on them; reading must still work)
+    "노래 제목".encode("cp949"), "曲名\u301c\u3000".encode("shift_jis"), b"caf\xe9 \xdf", b"abc\x00\xdf\x00xyz", b"\xff\xfe\x80\x81",
+    "été".encode("utf-8"), b"tab\there\x00junk",
+]
 
 
 def _rand_text(rng, size):
@@ -256,9 +290,21 @@ def _rand_bpm(rng):
     return rng.choice(BPM_POOL) if rng.random() < 0.7 else _f32(rng.uniform(30, 480))
 
 
+def _rand_count(rng, at_least=1):
+    r = rng.random()
+    if r < 0.7:
+        pool = SLOT_COUNTS
+    elif r < 0.9:
+        pool = SLOT_POOL
+    else:
+        pool = [rng.randint(1, 400)]
+    pool = [c for c in pool if c >= at_least]
+    return rng.choice(pool) if pool else 192 * ((at_least + 191) // 192)
+
+
 def _rand_header(rng):
     sid = rng.randrange(1, 30000)
-    return dict(
+    hd = dict(
         songid=sid, encode_version=_f32(rng.choice([2.9, 2.5, 1.0])), genre=rng.randrange(0, 11), bpm=_rand_bpm(rng),
         level=[rng.randrange(0, 200) for _ in range(3)] + [rng.choice([0, 0, 7])], old_encode_version=rng.choice([29, 25, 0]),
         old_songid=sid & 0x7FFF, old_genre=bytes(rng.choice([0, 0, 0, 1, 65, 255]) for _ in range(20)).hex(),
@@ -266,11 +312,32 @@ def _rand_header(rng):
         title=_rand_text(rng, 64), artist=_rand_text(rng, 32), noter=_rand_text(rng, 32), ojm_file=f"o2ma{sid}.ojm",
         time=[rng.randrange(0, 600) for _ in range(3)], cover=bytes(rng.randrange(256) for _ in range(rng.choice([0, 0, 5, 64]))).hex(),
     )
+    if rng.random() < 0.25:
+        # the counters of real files are not the number of non-empty slots (o2ma178: 602 events where 624 slots are set):
+        # they are header fields to decode, nothing the packages have to agree with
+        for key in ("event_count", "note_count", "measure_count"):
+            if rng.random() < 0.7:
+                hd[key] = [rng.choice([0, 1, rng.randrange(0, 2000), 2 ** 31 - 1, -1]) for _ in range(3)]
+    if rng.random() < 0.2:
+        for key in ("title", "artist", "noter", "ojm_file"):
+            if rng.random() < 0.5:
+                hd[key + "_hex"] = rng.choice(RAW_TEXTS).hex()
+    if rng.random() < 0.15:
+        n = rng.choice([1, 16, 200])
+        hd["bmp"] = bytes(rng.randrange(256) for _ in range(n)).hex()
+        hd["bmp_size"] = n
+    return hd
 
 
-def _rand_diff(rng, single, max_pkgs=40):
+def _rand_diff(rng, single, max_pkgs=40, kind="full"):
+    """kind: empty = no package at all; tempo_only = tempo-channel packages only; blank_packages = packages none of whose
+    slots is set (and packages with 0 slots); hits_only / holds_only = no long notes / nothing but long notes; full."""
+    if kind == "empty":
+        return []
+    if kind == "blank_packages":
+        return [[m, rng.choice([1, 2, 5, 8, 9, 22]), rng.choice([0, 0, 1, 4, 192]), []] for m in sorted(rng.randrange(0, 8) for _ in range(rng.randint(1, 5)))]
     n_pk = rng.randint(1, max_pkgs)
-    s0 = rng.choice([0, 0, 0, 1, 2, 5])  # first measure with notes
+    s0 = rng.choice([0, 0, 0, 0, 0, 0, 1, 1, 2, 2, 5, 5, 100, 999])  # first measure with notes
     L = rng.randint(1, 12)  # measures with notes: s0 .. s0+L-1
     pk = []
     # tempo events
@@ -283,50 +350,97 @@ def _rand_diff(rng, single, max_pkgs=40):
         for _ in range(k):
             m = rng.randrange(s0 + L, s0 + L + 4) if rng.random() < 0.25 else rng.randrange(0, s0 + L + 1)
             tm[m] = tm.get(m, 0) + 1
+    if kind == "tempo_only" and not tm:
+        tm = {rng.choice([0, 0, 3]): 1}
+    used_pos = set()
     for m, ne in sorted(tm.items()):
-        count = 1 if single else rng.choice([c for c in SLOT_COUNTS if c >= ne])
+        count = 1 if single else _rand_count(rng, ne)
         slots = sorted(rng.sample(range(count), ne))
         if not single and rng.random() < 0.5 and ne == 1:
             slots = [0]
-        pk.append([m, 1, count, [[s, _rand_bpm(rng)] for s in slots]])
+        used_pos |= {Fraction(m) + Fraction(sl, count) for sl in slots}
+        pk.append([m, 1, count, [[sl, _rand_bpm(rng)] for sl in slots]])
+    if not single and tm and rng.random() < 0.15:
+        # a second tempo package for a measure that has one already, with another slot count (no two events on one position)
+        m = rng.choice(sorted(tm))
+        count = rng.choice([2, 3, 4, 6, 8, 16])
+        evs = [[sl, _rand_bpm(rng)] for sl in range(count) if rng.random() < 0.4 and Fraction(m) + Fraction(sl, count) not in used_pos]
+        pk.append([m, 1, count, evs])
+    if kind == "tempo_only":
+        rng.shuffle(pk)
+        return pk
     budget = max(0, n_pk - len(pk))
     # autoplay packages (ignored channels) - part of real files, must not disturb framing
     if budget > 1 and rng.random() < 0.3:
         for _ in range(rng.randint(1, min(3, budget - 1))):
             count = rng.choice(SLOT_COUNTS[:6])
-            evs = [[s, [rng.randrange(1, 1000), rng.randrange(16), rng.randrange(16), rng.choice([0, 4])]] for s in range(count) if rng.random() < 0.5]
+            evs = [[sl, [rng.randrange(1, 1000), rng.randrange(16), rng.randrange(16), rng.choice([0, 4])]] for sl in range(count) if rng.random() < 0.5]
             pk.append([rng.randrange(0, s0 + L), rng.randrange(9, 23), count, evs])
             budget -= 1
     cand = [(m, ch) for m in range(s0, s0 + L) for ch in range(2, 9)]
     chosen = rng.sample(cand, min(budget, len(cand)))
+    zero_ln_ch = rng.randrange(2, 9) if rng.random() < 0.06 else None  # a column that holds only one zero-length long note
+
+    def value():
+        return rng.choice([1, rng.randrange(1, 1000), 32767, -1, -32768, -rng.randrange(1, 1000)])
+
     for ch in range(2, 9):
+        if ch == zero_ln_ch:
+            # head and tail on one position: two packages of the same measure and channel, the head's first
+            m, slot_h, count_h = rng.randrange(s0, s0 + L), *rng.choice([(0, 1), (0, 4), (1, 2), (2, 4), (8, 16)])
+            count_t = count_h * rng.choice([1, 2, 3])
+            pk.append([m, ch, count_h, [[slot_h, [value(), rng.randrange(16), rng.randrange(16), 2]]]])
+            pk.append([m, ch, count_t, [[slot_h * (count_t // count_h), [value(), rng.randrange(16), rng.randrange(16), 3]]]])
+            continue
         ms = sorted(m for m, c in chosen if c == ch)
         pkgs, seq = [], []
         for m in ms:
-            count = rng.choice(SLOT_COUNTS)
-            if count == 192:
-                slots = sorted(rng.sample(range(192), rng.randint(0, 5)))
+            count = _rand_count(rng)
+            if count >= 100:
+                slots = sorted(rng.sample(range(count), rng.randint(0, 5)))
+            elif count > 16:
+                slots = sorted(rng.sample(range(count), rng.randint(0, 10)))
             else:
-                slots = [s for s in range(count) if rng.random() < 0.6]
+                slots = [sl for sl in range(count) if rng.random() < 0.6]
             p = [m, ch, count, []]
             pkgs.append(p)
-            seq += [(p, s) for s in slots]
+            seq += [(p, sl) for sl in slots]
         open_head = False
-        p_head = rng.choice([0.2, 0.5, 0.8])
-        for j, (p, s) in enumerate(seq):
+        p_head = {"hits_only": 0.0, "holds_only": 1.0}.get(kind, rng.choice([0.2, 0.5, 0.8]))
+        if kind == "holds_only" and len(seq) % 2:
+            seq.pop()
+        all_hits = kind != "holds_only" and rng.random() < 0.1
+        for j, (p, sl) in enumerate(seq):
             if open_head:
                 typ, open_head = 3, False
-            elif j + 1 < len(seq) and rng.random() < p_head:
+            elif not all_hits and j + 1 < len(seq) and rng.random() < p_head:
                 typ, open_head = 2, True
             else:
                 typ = 0
-            value = rng.choice([1, rng.randrange(1, 1000), 32767, -1, -32768, -rng.randrange(1, 1000)])
-            p[3].append([s, [value, rng.randrange(16), rng.randrange(16), typ]])
+            p[3].append([sl, [value(), rng.randrange(16), rng.randrange(16), typ]])
+        if (all_hits or kind == "hits_only") and pkgs and rng.random() < 0.5:
+            # a hit-only column: a second package for a measure that has one already, hits on positions not yet taken
+            p0 = rng.choice(pkgs)
+            taken = {Fraction(sl, p0[2]) for sl, _ in p0[3]}
+            count = rng.choice([c for c in (2, 3, 4, 6, 8, 16) if c != p0[2]])
+            evs = [[sl, [value(), rng.randrange(16), rng.randrange(16), 0]] for sl in range(count) if rng.random() < 0.5 and Fraction(sl, count) not in taken]
+            pkgs.insert(pkgs.index(p0) + rng.choice([0, 1]), [p0[0], ch, count, evs])
         pk += pkgs
-    # file order: non-decreasing measure, channels of one measure in any order
-    rng.shuffle(pk)
-    pk.sort(key=lambda p: p[0])
-    if rng.random() < 0.3:
+    if rng.random() < 0.1:
+        pk.append([rng.randrange(0, s0 + L + 2), rng.choice([1, 2, 8, 15]), 0, []])  # a package with 0 slots
+    order = rng.random()
+    if order < 0.1:
+        # channel-major: all packages of one channel, then the next channel (each channel in measure order)
+        chans = sorted({p[1] for p in pk})
+        rng.shuffle(chans)
+        pk = [p for ch in chans for p in sorted((q for q in pk if q[1] == ch), key=lambda q: q[0])]
+        return pk
+    # file order: non-decreasing measure, channels of one measure in any order (packages of one (measure, channel) keep their order)
+    keys = {}
+    for p in pk:
+        keys.setdefault((p[0], p[1]), rng.random())
+    pk.sort(key=lambda p: (p[0], keys[(p[0], p[1])]))
+    if order < 0.4:
         # the format does not order packages of different channels: put the tempo-channel packages anywhere in the
         # file (note packages stay in time order: long-note pairing needs that)
         tempo = [p for p in pk if p[1] == 1]
@@ -346,7 +460,18 @@ def _rand_spec(rng, max_pkgs=40):
         singles = [rng.random() < 0.5 for _ in range(3)]
     else:
         singles = [False, False, False]
-    return dict(header=_rand_header(rng), diffs=[_rand_diff(rng, s, max_pkgs) for s in singles])
+    if rng.random() < 0.3:
+        # any of the three difficulties uncharted / without notes / without one kind of note
+        kinds = [rng.choice(DIFF_KINDS) for _ in range(3)]
+        if rng.random() < 0.5:
+            kinds[rng.randrange(3)] = "empty"
+    else:
+        kinds = ["full"] * 3
+    spec = dict(header=_rand_header(rng), diffs=[_rand_diff(rng, s, max_pkgs, k) for s, k in zip(singles, kinds)])
+    via = rng.choice(VIAS)
+    if via != "read":
+        spec["via"] = via
+    return spec
 
 
 # ----------------------------------------------------------------------------------------------- comparison
@@ -437,9 +562,32 @@ def _compare(ms, den, failed):
             failed.append(("tempo_point_time", f"difficulty {d} ({cls}): {len(bad)} of {len(want_t)} tempo points misplaced (max error {_maxerr(bad)} ms); first: bpm {v} got {g!r} ms want {t!r} ms"))
 
 
-def _run_bytes(b, path=None):
-    """-> (failed [(what, detail)], den) ; den is None when the file is outside the property's domain."""
+def _read_via(b, via="read", path=None):
+    """the observable entry points: read(bytes) through the class or an instance, read_file(str | Path)."""
     from reamber.o2jam.O2JMapSet import O2JMapSet
+
+    if path is not None:
+        return O2JMapSet.read_file(path)
+    if via == "read":
+        return O2JMapSet.read(b)
+    if via == "instance_read":
+        return O2JMapSet().read(b)
+    assert via in ("read_file_str", "read_file_path"), via
+    fd, tmp = tempfile.mkstemp(suffix=".ojn", prefix="c07_")
+    try:
+        with os.fdopen(fd, "wb") as f:
+            f.write(b)
+        if via == "read_file_str":
+            return O2JMapSet.read_file(tmp)
+        import pathlib
+
+        return O2JMapSet.read_file(pathlib.Path(tmp))
+    finally:
+        os.unlink(tmp)
+
+
+def _run_bytes(b, path=None, via="read"):
+    """-> (failed [(what, detail)], den) ; den is None when the file is outside the property's domain."""
 
     den = den_ojn(b)
     flags = sorted({f for m in den["maps"] for f in m["flags"]})
@@ -450,7 +598,7 @@ def _run_bytes(b, path=None):
     try:
         with warnings.catch_warnings():
             warnings.simplefilter("ignore")
-            ms = O2JMapSet.read_file(path) if path else O2JMapSet.read(b)
+            ms = _read_via(b, via, path)
     except Exception as ex:
         tb = traceback.extract_tb(ex.__traceback__)[-1]
         failed.append((f"read_raises_{'multi_tempo' if multi else 'single_tempo'}",
@@ -469,7 +617,7 @@ def _run_case(case):
         return _run_bytes(b, path=case["file"])
     b = build_ojn(case)
     _selfcheck(case, b)
-    return _run_bytes(b)
+    return _run_bytes(b, via=case.get("via", "read"))
 
 
 def _stats(rep, den, acc):
@@ -480,8 +628,18 @@ def _stats(rep, den, acc):
         acc["holds_across_measures"] = acc.get("holds_across_measures", 0) + m["holds_across_measures"]
         acc["tempo_events"] = acc.get("tempo_events", 0) + m["tempo_events"]
         acc["tempo_events_after_last_note"] = acc.get("tempo_events_after_last_note", 0) + m["tempo_after_last_note"]
+        if not m["hits"] and not m["holds"]:
+            acc["difficulties_without_notes"] = acc.get("difficulties_without_notes", 0) + 1
+        elif not m["hits"] or not m["holds"]:
+            acc["difficulties_with_one_kind_of_note"] = acc.get("difficulties_with_one_kind_of_note", 0) + 1
+        acc["zero_length_long_notes"] = acc.get("zero_length_long_notes", 0) + sum(1 for _, _, ln in m["holds"] if ln == 0)
     if all(m["cls"] == "single_tempo" for m in den["maps"]):
         acc["files_all_single_tempo"] = acc.get("files_all_single_tempo", 0) + 1
+    pc = den["header"]["package_count"]
+    if 0 in pc:
+        acc["files_with_a_0_package_difficulty"] = acc.get("files_with_a_0_package_difficulty", 0) + 1
+        if pc[1] == 0 and pc[0] and pc[2]:
+            acc["files_with_only_the_middle_difficulty_empty"] = acc.get("files_with_only_the_middle_difficulty_empty", 0) + 1
 
 
 def _drive(rep, cases, quick_s, thorough_s):
@@ -498,6 +656,8 @@ def _drive(rep, cases, quick_s, thorough_s):
         n_notes = sum(len(m["hits"]) + len(m["holds"]) for m in den["maps"])
         rep.case(case, nontrivial=n_notes >= 2)
         _stats(rep, den, acc)
+        if "file" not in case:
+            acc["entry_" + case.get("via", "read")] = acc.get("entry_" + case.get("via", "read"), 0) + 1
         seen = set()
         for what, d in failed:
             if what not in seen:  # one record per clause and case
@@ -517,7 +677,11 @@ def _small_specs():
     three difficulties; header tempo 120.
     part 1: T x one hit at p in {0, 1/2, 2, 5}; the hit is on column 0 / 3 / 6 in difficulty 0 / 1 / 2.
     part 2: T x that hit x one long note (column 6 / 5 / 4) head in {0, 1, 3} -> tail in {1/2, 7/3, 9/2}; difficulties
-            1 and 2 carry the hit one resp. two measures later."""
+            1 and 2 carry the hit one resp. two measures later.
+    part 3: difficulties that are not charted: every assignment of {charted, no package at all} to the three difficulties
+            except all-charted [7] x 3 tempo sets (none / one event at 1 / events at 0 and 3/2), the charted ones holding
+            a hit and a long note; then one difficulty with tempo packages only (each of the three) x the 2 non-empty
+            tempo sets, the other two charted [6]."""
     tpos = [Fraction(0), Fraction(1), Fraction(3, 2), Fraction(4)]
     tempo_sets = [()]
     for p in tpos:
@@ -539,31 +703,53 @@ def _small_specs():
                     pk = _pos_pkgs(1, list(ts)) + _pos_pkgs(2 + d, [(p + d, hit)]) + _pos_pkgs(8 - d, [(a, head), (b, tail)])
                     diffs.append(sorted(pk, key=lambda x: x[0]))
                 yield dict(header=PLAIN_HEADER, diffs=diffs)
+    few = [(), ((Fraction(1), 60.0),), ((Fraction(0), 240.0), (Fraction(3, 2), 60.0))]
+
+    def charted(d, ts, notes=True):
+        pk = _pos_pkgs(1, list(ts))
+        if notes:
+            pk += _pos_pkgs(2 + d, [(Fraction(1, 2) + d, hit)]) + _pos_pkgs(8 - d, [(Fraction(1), head), (Fraction(7, 3), tail)])
+        return sorted(pk, key=lambda x: x[0])
+
+    for pattern in itertools.product((True, False), repeat=3):
+        if all(pattern):
+            continue
+        for ts in few:
+            yield dict(header=PLAIN_HEADER, diffs=[charted(d, ts) if pattern[d] else [] for d in range(3)])
+    for only_tempo in range(3):
+        for ts in few[1:]:
+            yield dict(header=PLAIN_HEADER, diffs=[charted(d, ts, notes=d != only_tempo) for d in range(3)])
 
 
-@bounded("C07", note="every file of a small family (<= 2 tempo events, one hit, at most one long note per difficulty) against the exact OJN interpreter; gives minimal witnesses")
+@bounded("C07", note="every file of a small family (<= 2 tempo events, one hit, at most one long note per difficulty; any of the difficulties without packages / with tempo packages only) against the exact OJN interpreter; gives minimal witnesses")
 def ojn_small_files_vs_interpreter(rep):
     specs = list(_small_specs())
     rep.bound = (f"all {len(specs)} files: tempo events (same in the 3 difficulties) on a subset (size <= 2) of positions {{0, 1, 3/2, 4}} with values 60/240 "
                  "(both assignments; 21 sets incl. none) x one hit at {0, 1/2, 2, 5} on a different column per difficulty [84 files], then additionally x one long "
-                 "note head {0,1,3} -> tail {1/2, 7/3, 9/2} with the hit shifted by one measure per difficulty [504 files]; header tempo 120")
-    rep.rule = "a case is one OJN byte string (header + 3 difficulties); non-trivial when it holds at least 2 notes (every case holds >= 3)"
+                 "note head {0,1,3} -> tail {1/2, 7/3, 9/2} with the hit shifted by one measure per difficulty [504 files]; then every assignment of {charted, 0 packages} to "
+                 "the three difficulties except all-charted x 3 tempo sets [21 files] and one difficulty with tempo packages only x 2 tempo sets [6 files]; header tempo 120")
+    rep.rule = "a case is one OJN byte string (header + 3 difficulties); non-trivial when it holds at least 2 notes (every case of the first 588 holds >= 3; the file with three empty difficulties holds none)"
     rep.exhaustive = True
     _drive(rep, specs, 40, 300)
     if rep.extra.get("stopped_on_time_budget"):
         rep.exhaustive = False
 
 
-@bounded("C07", note="random well-formed OJN files (1-40 packages per difficulty, slot counts {1,2,3,4,8,16,192}, 0-6 tempo events anywhere, 7 columns, long notes across packages/measures, ignored autoplay channels, cover blob) against the exact OJN interpreter")
+@bounded("C07", note="random well-formed OJN files (0-40 packages per difficulty, difficulties without packages / notes / one kind of note, slot counts from a pool and random 1-400, 0-6 tempo events anywhere, 7 columns, long notes across packages/measures, ignored autoplay channels, cover blob, all four entry points) against the exact OJN interpreter")
 def ojn_random_files_vs_interpreter(rep):
     rng = rep.rng
     N = rep.n(200, 3000)
-    rep.bound = (f"{N} seeded random files: per difficulty 1-40 packages, note packages in non-decreasing measure order (distinct (measure, channel)), tempo-channel packages anywhere in the file in 30% of the difficulties, slot counts from "
-                 "{1,2,3,4,8,16,192}, 0-6 tempo events (a quarter of them after the last note measure) with values from a pool incl. 0.75 and 1000 or a random "
-                 "float32 in [30,480], notes start at measure 0/1/2/5 and span 1-12 measures, hits / head-tail pairs on columns 0-6, channels 9-22 sometimes present, "
-                 "random header fields, NUL-padded ASCII texts of length 0..field size, 0/5/64 cover bytes; 35% of the files have at most one tempo event "
-                 "(at measure 0) in every difficulty")
-    rep.rule = "a case is one OJN byte string; non-trivial when it holds at least 2 notes"
+    rep.bound = (f"{N} seeded random files: per difficulty 1-40 packages (0 for an uncharted difficulty, see below), note packages in non-decreasing measure order, tempo-channel packages anywhere in the file in 30% of the difficulties, "
+                 "channel-major file order in 10%; slot counts from {1,2,3,4,8,16,192} (70%), {5,6,7,12,24,32,48,64,96,384} (20%) or random 1-400 (10%), a 0-slot package in 10%; "
+                 "0-6 tempo events (a quarter of them after the last note measure) with values from a pool incl. 0.75 and 1000 or a random "
+                 "float32 in [30,480], in 15% of the multi-tempo difficulties a second tempo package for an already used measure; notes start at measure 0/1/2/5 (rarely 100/999) and span 1-12 "
+                 "measures, hits / head-tail pairs on columns 0-6, 6%: a column with one zero-length long note (head and tail package on one position), hit-only columns with a second "
+                 "package for a used measure, channels 9-22 sometimes present; in 30% of the files each difficulty is one of {0 packages, tempo packages only, packages without events, "
+                 "hits only, long notes only, full} (half of those files with at least one 0-package difficulty); random header fields, NUL-padded ASCII texts of length 0..field size "
+                 "(20%: raw cp949 / Shift-JIS / Latin-1 / bytes after the NUL), header event / note / measure counters derived or (25%) arbitrary, 0/5/64 cover bytes, 15% a bitmap blob "
+                 "after the cover; 35% of the files have at most one tempo event (at measure 0) in every difficulty; entry point read(bytes) 4/7, read_file(str), "
+                 "read_file(Path), read on an instance 1/7 each")
+    rep.rule = "a case is one OJN byte string and the entry point it is read through; non-trivial when it holds at least 2 notes"
 
     def gen():
         for _ in range(N):
@@ -578,6 +764,81 @@ def ojn_bundled_files_vs_interpreter(rep):
     rep.rule = "a case is one bundled file; both hold hundreds of notes (o2ma178: 22-24 tempo-channel events per difficulty, o2ma120: none)"
     rep.exhaustive = True
     _drive(rep, [dict(file=p) for p in FIXTURES], 50, 300)
+
+
+# ---- two reads in one process
+
+def _snapshot(ms):
+    """everything the reader returned, as plain values"""
+    out = [repr({k: v for k, v in sorted(vars(ms).items()) if k != "maps"})]
+    for m in ms.maps:
+        for lst in (m.hits, m.holds, m.bpms):
+            df = lst.df
+            out.append((list(df.columns), repr(df.to_numpy().tolist()), repr(df.index.tolist())))
+    return out
+
+
+def _run_pair(case):
+    """case = {first: spec, second: spec}: read first, read second, look at the first result again, read first again."""
+    b1, b2 = build_ojn(case["first"]), build_ojn(case["second"])
+    _selfcheck(case["first"], b1), _selfcheck(case["second"], b2)
+    den1, den2 = den_ojn(b1), den_ojn(b2)
+    if any(m["flags"] for m in den1["maps"] + den2["maps"]):
+        return [], None, ["outside domain"]
+    failed = []
+    with warnings.catch_warnings():
+        warnings.simplefilter("ignore")
+        try:
+            ms1 = _read_via(b1, case["first"].get("via", "read"))
+            snap1 = _snapshot(ms1)
+            ms2 = _read_via(b2, case["second"].get("via", "read"))
+            ms1_again = _read_via(b1, case["first"].get("via", "read"))
+        except Exception as ex:
+            multi = any(m["cls"] == "multi_tempo" for m in den1["maps"] + den2["maps"])
+            return [(f"read_raises_{'multi_tempo' if multi else 'single_tempo'}", f"{type(ex).__name__}: {ex}")], den2, []
+        now = _snapshot(ms1)
+        if now != snap1:
+            k = next((i for i, (x, y) in enumerate(zip(snap1, now)) if x != y), min(len(snap1), len(now)))
+            failed.append(("earlier_result_changed_by_later_read", f"part {k} of the first result (0 = header fields, then hits / holds / tempo points per difficulty) differs after reading the second file; {len(snap1)} parts before, {len(now)} after"))
+        again = _snapshot(ms1_again)
+        if again != snap1:
+            k = next((i for i, (x, y) in enumerate(zip(snap1, again)) if x != y), min(len(snap1), len(again)))
+            failed.append(("same_bytes_read_differently_again", f"part {k} (0 = header fields, then hits / holds / tempo points per difficulty) differs between the first and the second read of the same bytes"))
+        _compare(ms2, den2, failed)
+    return failed, den2, []
+
+
+@bounded("C07", note="two different OJN files read one after the other in one process: the first result is not touched by the second read, the second result matches the interpreter, re-reading the first bytes gives the first result")
+def ojn_reads_do_not_interfere(rep):
+    rng = rep.rng
+    N = rep.n(40, 600)
+    rep.bound = (f"{N} seeded pairs of random files (<= 12 packages per difficulty, otherwise as in ojn_random_files_vs_interpreter incl. difficulties without packages and all entry points); "
+                 "per pair: read A, read B, compare A's map set with its state before B was read, compare B with the interpreter, read A again")
+    rep.rule = "a case is a pair of OJN byte strings; non-trivial when the second holds at least 2 notes"
+    acc = {}
+    for _ in range(N):
+        if rep.out_of_time(25, 300):
+            acc["stopped_on_time_budget"] = True
+            break
+        case = dict(first=_rand_spec(rng, 12), second=_rand_spec(rng, 12))
+        failed, den, flags = _run_pair(case)
+        if den is None:
+            acc["outside_domain"] = acc.get("outside_domain", 0) + 1
+            continue
+        rep.case(case, nontrivial=sum(len(m["hits"]) + len(m["holds"]) for m in den["maps"]) >= 2)
+        seen = set()
+        for what, d in failed:
+            if what not in seen:
+                seen.add(what)
+                rep.fail(what, case, d)
+    rep.extra.update(acc)
+
+
+@replayer("ojn_reads_do_not_interfere")
+def _replay_pair(case, what):
+    failed, den, flags = _run_pair(case)
+    hit = [d for w, d in failed if w == what]
+    return (bool(hit), hit[0] if hit else "passes")
 
 
 def _replay(case, what):
